@@ -200,6 +200,18 @@ def run(ctx):
         comp = compose(v)
         ctx.formula('AGREE', f'loading what was saved returns the same {attr}', init, comp, ctx.spec(uw, spec, I=J), node=init.node,
                     construct=f'self.{attr} [load ∘ save]')
+    # a frame may be loaded from a frequency SELECTION of a file (Frame(waterfall=path, f_start=.., f_stop=..) or a Waterfall
+    # opened that way): blimpy describes the selection in container.f_start / f_stop / selection_shape and leaves
+    # header['fch1'] at the FILE's first channel (it is rewritten only at write time), so the loaded frame's fch1 has to come
+    # from the selection bounds -- from the header it would register a sub-band at the file's band edge
+    vf = selfattr(r2, 'fch1')
+    ats_f = list(T.all_atoms(vf).values()) if vf is not None else []
+    from_sel = any(a.kind == 'attr' and a.args[1] == 'f_start' for a in ats_f) and any(a.kind == 'attr' and a.args[1] == 'f_stop' for a in ats_f)
+    from_hdr = any(a.kind == 'sub' and a.args[1].key == lift('fch1').key for a in ats_f)
+    ctx.ob('AGREE', 'a frame loaded from a file takes fch1 from the bounds of the loaded selection (container.f_start / f_stop by '
+           'orientation), not from the header card, which blimpy leaves at the file\'s first channel under a frequency selection',
+           init, from_sel and not from_hdr, {'fch1': pretty(vf)[:300] if vf is not None else None}, node=init.node,
+           construct='self.fch1 [waterfall route, selection]')
     sn = selfattr(r2, 'source_name')
     ctx.formula('AGREE', 'source name is read from the header', init, sn if sn is not None else NONE,
                 T.mk_sub(T.mk_attr(sym('WF'), 'header'), lift('source_name')), node=init.node, construct='self.source_name [waterfall route]')
